@@ -1,8 +1,102 @@
-import BrushVerif.Model.Wire
-/-! Driver for C19 (stub until the property's model exists). -/
+import BrushVerif.Model.Highlight
+/-!
+Driver for C19: `C19 <cursor,cursor,…> <tree tokens…>` →
+`wf=<0|1> %| <cursor> <spans> <trap> %| …` with trap = `-` or the first off-boundary offset, spans `start-end-Kind,…` (`-` when empty).
+Tree grammar (prefix, space separated), as printed by `harness/src/bin/c19.rs`:
+  prog  := `P <esc line> F` | `P <esc line> T <n> tok*n`
+  tok   := `O s e` | `W s e <esc w> <cls> N` | `W s e <esc w> <cls> Y <n> piece*n`
+  piece := `L s e <Q|R|A|X>` | `D s e <n> piece*n` | `B s e prog` | `C s e prog`
+-/
 namespace BrushVerif.Drv.C19
-open BrushVerif.Wire
+open BrushVerif.Wire BrushVerif.Highlight
 
-def handle (_toks : List Str) : Str := "unimplemented".toList
+def kindName : Kind → String
+  | .Default => "Default" | .Comment => "Comment" | .Arithmetic => "Arithmetic"
+  | .Parameter => "Parameter" | .CommandSubstitution => "CommandSubstitution" | .Quoted => "Quoted"
+  | .Operator => "Operator" | .Assignment => "Assignment" | .HyphenOption => "HyphenOption"
+  | .Function => "Function" | .Keyword => "Keyword" | .Builtin => "Builtin" | .Alias => "Alias"
+  | .ExternalCommand => "ExternalCommand" | .NotFoundCommand => "NotFoundCommand"
+  | .UnknownCommand => "UnknownCommand"
+
+def showSpan (s : Span) : Str :=
+  natToStr s.start ++ ['-'] ++ natToStr s.stop ++ ['-'] ++ (kindName s.kind).toList
+
+def showSpans (l : List Span) : Str :=
+  if l.isEmpty then ['-'] else joinWith [','] (l.map showSpan)
+
+def cls? : Str → Option Class
+  | ['K'] => some .keyword | ['A'] => some .alias | ['F'] => some .function
+  | ['B'] => some .builtin | ['E'] => some .external | ['N'] => some .notFound
+  | _ => none
+
+def leaf? : Str → Option LeafKind
+  | ['Q'] => some .quoted | ['R'] => some .parameter | ['A'] => some .arithmetic
+  | ['X'] => some .text
+  | _ => none
+
+mutual
+  def pProg : Nat → List Str → Option (Prog × List Str)
+    | 0, _ => none
+    | _ + 1, ['P'] :: l :: ['F'] :: rest => some (.failed (unesc l), rest)
+    | fuel + 1, ['P'] :: l :: ['T'] :: n :: rest => do
+      let n ← parseNat? n
+      let (ts, rest) ← pToks fuel n rest
+      some (.ok (unesc l) ts, rest)
+    | _, _ => none
+  def pToks : Nat → Nat → List Str → Option (List Tok × List Str)
+    | 0, _, _ => none
+    | _, 0, rest => some ([], rest)
+    | fuel + 1, n + 1, rest => do
+      let (t, rest) ← pTok fuel rest
+      let (ts, rest) ← pToks fuel n rest
+      some (t :: ts, rest)
+  def pTok : Nat → List Str → Option (Tok × List Str)
+    | 0, _ => none
+    | _, ['O'] :: s :: e :: rest => do
+      some (.op (← parseNat? s) (← parseNat? e), rest)
+    | _, ['W'] :: s :: e :: w :: c :: ['N'] :: rest => do
+      some (.wordFail (← parseNat? s) (← parseNat? e) (unesc w) (← cls? c), rest)
+    | fuel + 1, ['W'] :: s :: e :: w :: c :: ['Y'] :: n :: rest => do
+      let (ps, rest) ← pPieces fuel (← parseNat? n) rest
+      some (.word (← parseNat? s) (← parseNat? e) (unesc w) (← cls? c) ps, rest)
+    | _, _ => none
+  def pPieces : Nat → Nat → List Str → Option (List Piece × List Str)
+    | 0, _, _ => none
+    | _, 0, rest => some ([], rest)
+    | fuel + 1, n + 1, rest => do
+      let (p, rest) ← pPiece fuel rest
+      let (ps, rest) ← pPieces fuel n rest
+      some (p :: ps, rest)
+  def pPiece : Nat → List Str → Option (Piece × List Str)
+    | 0, _ => none
+    | _, ['L'] :: s :: e :: k :: rest => do
+      some (.leaf (← parseNat? s) (← parseNat? e) (← leaf? k), rest)
+    | fuel + 1, ['D'] :: s :: e :: n :: rest => do
+      let (ps, rest) ← pPieces fuel (← parseNat? n) rest
+      some (.dq (← parseNat? s) (← parseNat? e) ps, rest)
+    | fuel + 1, ['B'] :: s :: e :: rest => do
+      let (p, rest) ← pProg fuel rest
+      some (.sub (← parseNat? s) (← parseNat? e) 1 p, rest)
+    | fuel + 1, ['C'] :: s :: e :: rest => do
+      let (p, rest) ← pProg fuel rest
+      some (.sub (← parseNat? s) (← parseNat? e) 2 p, rest)
+    | _, _ => none
+end
+
+def cursors (s : Str) : List Nat := (splitOnChar ',' s).filterMap parseNat?
+
+def handle (toks : List Str) : Str :=
+  match toks with
+  | cs :: tree =>
+    match pProg (tree.length + 1) tree with
+    | some (p, []) =>
+      let head : Str := "wf=".toList ++ (if wfProg p then ['1'] else ['0'])
+      joinWith " %| ".toList
+        (head :: (cursors cs).map (fun c =>
+          let st := highlightSt p c
+          natToStr c ++ [' '] ++ showSpans st.spans ++ [' '] ++
+            (match st.trap with | some t => natToStr t | none => ['-'])))
+    | _ => "bad-tree".toList
+  | [] => "bad-request".toList
 
 end BrushVerif.Drv.C19
